@@ -20,6 +20,8 @@ def main():
     feats = ""
     if "--features" in sys.argv:
         feats = " --features " + sys.argv[sys.argv.index("--features") + 1]
+    if "--demo-args" in sys.argv:   # e.g. "--no-default-features --features std,rgba,image"
+        feats = " " + sys.argv[sys.argv.index("--demo-args") + 1]
     only_check = "--only-check" in sys.argv
     out = os.path.join(wt, "out")
     patch, demo, note = (os.path.join(out, f"{ab}{s}") for s in (".diff", "_demo.rs", ".md"))
